@@ -352,6 +352,8 @@ def oracle(case, real):
         tracking = saved.pop()
     if not suspended_ever:
       bad = check_state(st)
+      if bad is None and isinstance(st, dict) and st.get('fn_last_is_current') is False:
+        bad = {'what': "the history of __fn_or_cls__ does not end with the Buildable's current callable"}
       if bad:
         bad['where'] = where
         bad['op'] = op
